@@ -35,6 +35,9 @@ func checkCompose(c composeCase) string {
 	for i, s := range c.Leaves {
 		d := data(s.Len, byte(i+1)*0x11)
 		sr := &vk.ScriptReader{Data: d, Chunks: s.Chunks, EOFWith: s.EOFWith, FailAt: -1}
+		if s.CloseErr {
+			sr.CloseErr = errSrcClose
+		}
 		leaves = append(leaves, sr)
 		if s.NoCloser {
 			rs = append(rs, vk.ReaderOnly{R: sr})
